@@ -511,9 +511,25 @@ def carry_order_rule(rep, f, name):
     if not mids:
         rep.undecided('R-CARRY', key, where(f, f.node), 'no variable is both incremented by one and tested against 60: the minutes link of the carry chain was not recognised')
         return
+    # the two arms of one `if` exclude each other: a test in the `else`/`elif` arm of the `if` whose body holds the increment is not evaluated
+    # on the path that carried
+    arm = {}
+    def mark(node, path):
+        for fld in ('body', 'orelse', 'finalbody'):
+            for ch in getattr(node, fld, None) or []:
+                if isinstance(ch, ast.stmt):
+                    p2 = path + ((id(node), fld),) if isinstance(node, ast.If) else path
+                    arm[id(ch)] = p2
+                    mark(ch, p2)
+    mark(f.node, ())
+
+    def exclusive(pa, pb):
+        da, db = dict(pa), dict(pb)
+        return any(k in db and db[k] != fld for k, fld in da.items())
     for v in sorted(mids):
         first_inc = min(incs[v])
-        late = [t for t in tests[v] if t[0] > first_inc]
+        inc_path = arm.get(id(stmts[first_inc]), ())
+        late = [t for t in tests[v] if t[0] > first_inc and not exclusive(inc_path, arm.get(id(stmts[t[0]]), ()))]
         if late:
             rep.holds('R-CARRY', key, where(f, late[0][1]), '`%s` is compared with 60 after the seconds carry has been added to it' % v)
         else:
@@ -1004,6 +1020,7 @@ def run(repo, rep):
     vector_validator_rule(repo, rep)
     from . import common
     common.identity_flag_rule(repo, rep, 'geodepy.angles')
+    common.ctor_sign_table(repo, rep)
     zero_angle_rules(repo, rep)
 
 
